@@ -102,7 +102,7 @@ fn gen_case(c: &mut Choices) -> Case {
             pos: *c.pick(&[0u16, 0, 1, 32767, 65534, 65535]),
         },
         2 => Change::OptionMismatch,
-        _ => Change::SourceEdit { which: c.raw(), edit: c.below(4) as u8 },
+        _ => Change::SourceEdit { which: c.raw(), edit: c.below(6) as u8 },
     };
     Case { project, build, verify_inputs, verify_recursive, change }
 }
@@ -251,6 +251,23 @@ pub fn check(case: &Case, st: &mut Stats) -> Check {
                     b = nb;
                 }
                 2 => b.extend_from_slice(b"-TXTPP#\n"), // an empty directive: often no visible change
+                4 | 5 => {
+                    // change only the body of a temp directive (the line after its first line);
+                    // fall back to appending a line when the source has none
+                    let text = String::from_utf8_lossy(&b).to_string();
+                    let mut lines: Vec<String> = text.split_inclusive('\n').map(String::from).collect();
+                    let at = (0..lines.len().saturating_sub(1)).find(|i| lines[*i].contains("TXTPP#temp ") && !lines[*i + 1].contains("TXTPP#"));
+                    match at {
+                        Some(i) => {
+                            let l = lines[i + 1].clone();
+                            let body = l.trim_end_matches(['\n', '\r']);
+                            let term = &l[body.len()..];
+                            lines[i + 1] = format!("{body}EDITED{term}");
+                        }
+                        None => lines.push("appended line\n".to_string()),
+                    }
+                    b = lines.concat().into_bytes();
+                }
                 _ => {
                     if let Some(i) = b.iter().position(|x| x.is_ascii_lowercase()) {
                         b[i] = b[i].to_ascii_uppercase();
@@ -350,7 +367,7 @@ impl Prop for C06 {
         }
     }
     fn worker(&self, ctx: &mut WorkerCtx) {
-        let total = if ctx.quick { 10_000 } else { 200_000 };
+        let total = if ctx.quick { 30_000 } else { 600_000 };
         let n = ctx.share(total);
         ctx.drive(1, n, 600, &gen_case, &check, &reduce);
     }
